@@ -166,7 +166,11 @@ def run_dt(shard, tier, res, mod):
     period_ns = p * U[pu]
     vs = sorted(F.fvars(f))
     n = 4 if len(vs) == 1 else 3
+    if tier == 'quick':
+        n -= 1 if len(vs) == 1 else 0
     traces = [F.trace_dict(t, vs) for t in F.traces(n, F.V3 if len(vs) == 1 else F.V2, len(vs))]
+    if tier == 'quick' and len(vs) > 1:
+        traces = traces[::2] + traces[-1:]
     refs = [refsem.ev(f, w, len(next(iter(w.values())))) for w in traces]
     h = int(refsem.horizon(f))
     nsp = len(SUFFIX) ** 2
